@@ -218,6 +218,11 @@ func (ex *Exec) branch(cond *Term, pos token.Pos) bool {
 // discovery order is not stable across re-execution, so the decision records
 // the value itself).
 func (ex *Exec) concretize(t *Term, what string) int64 {
+	return ex.concretizeN(t, what, 4096)
+}
+
+// concretizeN: as concretize, giving up (unsupported) beyond `limit` values.
+func (ex *Exec) concretizeN(t *Term, what string, limit int) int64 {
 	if k, ok := constInt(t); ok {
 		return k
 	}
@@ -231,7 +236,7 @@ func (ex *Exec) concretize(t *Term, what string) int64 {
 	// enumerate all feasible values (bounded)
 	var vals []int64
 	cons := ex.pcCopy()
-	for len(vals) < 4096 {
+	for len(vals) < limit {
 		res, _ := ex.solve(cons, false)
 		if res != Sat {
 			if res == Unknown {
@@ -251,8 +256,8 @@ func (ex *Exec) concretize(t *Term, what string) int64 {
 	if len(vals) == 0 {
 		panic(pathEnd{"infeasible"})
 	}
-	if len(vals) >= 4096 {
-		panic(unsupported("concretize %s: more than 4096 feasible values", what))
+	if len(vals) >= limit {
+		panic(unsupported("concretize %s: more than %d feasible values", what, limit))
 	}
 	for _, v := range vals[1:] {
 		w := append(append([]int(nil), ex.trail...), int(v))
